@@ -81,6 +81,7 @@ type FnCtx struct {
 	callees   map[string]bool
 	freshWrite bool
 	cellOnly  map[string][]*ssa.FreeVar
+	ghosts    map[string]Val
 }
 
 func freeVarNamed(fn *ssa.Function, name string) *ssa.FreeVar {
@@ -558,7 +559,7 @@ func newFnCtx(P *Prog, fn *ssa.Function, fc *FuncContract) *FnCtx {
 	fx := &FnCtx{P: P, fn: fn, fc: fc, key: fn.Pkg.Pkg.Name() + "." + fnKey(fn), declared: map[string]string{}, vals: map[ssa.Value]Term{},
 		tuples: map[ssa.Value][]Term{}, reach: map[*ssa.BasicBlock]Term{}, outSt: map[*ssa.BasicBlock]*State{}, edgeCond: map[[2]int]Term{},
 		compSort: map[string]string{}, written: map[string]bool{}, counter: map[string]int{}, closures: map[ssa.Value]*ssa.MakeClosure{},
-		allocByPos: map[token.Pos]*ssa.Alloc{}, notes: map[string]bool{}, paramTerm: map[string]Val{}, callCount: map[string]int{}, callees: map[string]bool{}, cellOnly: map[string][]*ssa.FreeVar{}}
+		allocByPos: map[token.Pos]*ssa.Alloc{}, notes: map[string]bool{}, paramTerm: map[string]Val{}, callCount: map[string]int{}, callees: map[string]bool{}, cellOnly: map[string][]*ssa.FreeVar{}, ghosts: map[string]Val{}}
 	fx.mode = "int"
 	if fc.Mode != "" {
 		fx.mode = fc.Mode
@@ -788,6 +789,7 @@ func (fx *FnCtx) processBlock(b *ssa.BasicBlock) {
 		st = fx.enterLoop(li, st, preds)
 	}
 	fx.cur = st
+	fx.snapshots(b, preds, st)
 	for _, in := range b.Instrs {
 		fx.instr(in)
 	}
@@ -799,6 +801,46 @@ func (fx *FnCtx) processBlock(b *ssa.BasicBlock) {
 		}
 	}
 	_ = P
+}
+
+// snapshots: ghost "let X = e @after loop k" values, defined where control leaves loop k
+func (fx *FnCtx) snapshots(b *ssa.BasicBlock, preds []*ssa.BasicBlock, st *State) {
+	for _, ls := range fx.fc.Lets {
+		if ls.Loop >= len(fx.loops) {
+			fx.errf("binding failure: let %s names loop %d but %s has %d loops", ls.Name, ls.Loop, fx.key, len(fx.loops))
+			continue
+		}
+		li := fx.loops[ls.Loop]
+		if li.blocks[b] {
+			continue
+		}
+		fromLoop := false
+		for _, p := range preds {
+			if li.blocks[p] {
+				fromLoop = true
+			}
+		}
+		if !fromLoop {
+			continue
+		}
+		env := fx.env(st)
+		if li.bodyPos.IsValid() {
+			env.pos = li.bodyPos
+		}
+		v, err := env.elab(ls.E)
+		if err != nil {
+			fx.errf("binding failure: let %s in %s: %v", ls.Name, fx.key, err)
+			continue
+		}
+		g, ok := fx.ghosts[ls.Name]
+		if !ok {
+			name := "ghost_" + sanitize(ls.Name)
+			fx.declare(name, v.T.Sort)
+			g = Val{T: Term{name, v.T.Sort}, GoT: v.GoT}
+			fx.ghosts[ls.Name] = g
+		}
+		fx.assume(eq(g.T, v.T))
+	}
 }
 
 func (fx *FnCtx) mergeStates(b *ssa.BasicBlock, preds []*ssa.BasicBlock, conds []Term) *State {
@@ -1057,6 +1099,14 @@ func (fx *FnCtx) checkBackEdge(li *loopInfo, from *ssa.BasicBlock, succIdx int) 
 // ---------- names ----------
 
 func (fx *FnCtx) lookupName(env *Env, name string) (Val, bool, error) {
+	if g, ok := fx.ghosts[name]; ok {
+		return g, true, nil
+	}
+	for _, ls := range fx.fc.Lets {
+		if ls.Name == name {
+			return Val{}, false, fmt.Errorf("ghost %s used before loop %d was left", name, ls.Loop)
+		}
+	}
 	// scope-based lookup
 	if fx.pkgInfo != nil && env.pos.IsValid() {
 		if sc := fx.fn.Pkg.Pkg.Scope().Innermost(env.pos); sc != nil {
